@@ -72,12 +72,14 @@ func (g *G) MetamorphicProgram(kind string) *Program {
 			m, _ := cxType.MethodByName(sk)
 			stp := m.Type.In(2)
 			sl := reflect.MakeSlice(stp, 0, 1)
-			if arg == nil {
-				sl = reflect.Append(sl, reflect.Zero(stp.Elem()))
-			} else {
-				sl = reflect.Append(sl, reflect.ValueOf(arg))
+			for rep := 0; rep < 3; rep++ { // three copies: elements after the first take another path through the slice encoders
+				if arg == nil {
+					sl = reflect.Append(sl, reflect.Zero(stp.Elem()))
+				} else {
+					sl = reflect.Append(sl, reflect.ValueOf(arg))
+				}
 			}
-			cops = append(cops, MkOp(sk, "cv", sl.Interface(), Arr(elemIn)))
+			cops = append(cops, MkOp(sk, "cv", sl.Interface(), Arr(elemIn, elemIn, elemIn)))
 			g.hit(FeContext, sk)
 		}
 		p.Chain = []Step{{Kind: "With", Ops: cops}}
@@ -120,12 +122,14 @@ func (g *G) MetamorphicProgram(kind string) *Program {
 		m, _ := evType.MethodByName(sk)
 		stp := m.Type.In(2)
 		sl := reflect.MakeSlice(stp, 0, 1)
-		if arg == nil {
-			sl = reflect.Append(sl, reflect.Zero(stp.Elem()))
-		} else {
-			sl = reflect.Append(sl, reflect.ValueOf(arg))
+		for rep := 0; rep < 3; rep++ {
+			if arg == nil {
+				sl = reflect.Append(sl, reflect.Zero(stp.Elem()))
+			} else {
+				sl = reflect.Append(sl, reflect.ValueOf(arg))
+			}
 		}
-		ops = append(ops, MkOp(sk, "v", sl.Interface(), Arr(elemIn)))
+		ops = append(ops, MkOp(sk, "v", sl.Interface(), Arr(elemIn, elemIn, elemIn)))
 		g.hit(FeEvent, sk)
 	}
 	ev := EventSpec{Entry: "Log", Level: 6, Ops: ops, Fin: "Send"}
@@ -150,9 +154,15 @@ func MetaOccurrences(obj *jsonv.Node) map[string][]byte {
 			if kv.Val.Kind == jsonv.Object && len(kv.Val.Obj) == 1 {
 				r[kv.Key] = kv.Val.Obj[0].Val.Raw
 			}
-		case "a", "v", "ca", "cv":
+		case "a", "ca":
 			if kv.Val.Kind == jsonv.Array && len(kv.Val.Arr) == 1 {
 				r[kv.Key] = kv.Val.Arr[0].Raw
+			}
+		case "v", "cv":
+			// the slice variant carries the value three times: the last element is the one compared (the first
+			// has been compared with itself through MatchFields already)
+			if kv.Val.Kind == jsonv.Array && len(kv.Val.Arr) == 3 {
+				r[kv.Key] = kv.Val.Arr[2].Raw
 			}
 		case "ad", "ao", "aio":
 			if kv.Val.Kind == jsonv.Array && len(kv.Val.Arr) == 1 {
